@@ -1,5 +1,170 @@
-(* STUB: Spec layer for pptt -- to be written *)
-From Coq Require Import NArith List.
-From ACPI Require Import Lib.Bytes Lib.Sx Spec.Layout.
+(* Spec layer for the PPTT (ACPI 6.5 5.2.30), written from SPEC_NOTES.md A.2.
+   Case vocabulary (shared with the harness):
+     ctor  (oem6 tbl8 orev)
+     ops   (1 parent uid (builders))     add_processor(ProcessorNode::new(parent, uid) + builders) -> ProcessorHandle
+                 parent    ()       ProcessorNode::new(None, uid)
+                           (104 k)  ProcessorNode::new(Some(&handle returned by operation k), uid)     [k must be an add_processor]
+                           n        ProcessorNode::new(None, uid) followed by node.parent = n            (pub field, raw number)
+                 builders  (1) physical (2) valid (3) thread (4) leaf (5) identical
+                           (6 (104 k)) add_cache(&handle returned by operation k)                        [k must be an add_cache]
+                           (7 v) node.flags = v   (8 v) node.parent = v, v a number or (104 k)   (9 v) node.acpi_processor_id = v
+           (2 (setters))                 add_cache(CacheNodeBuilder::default() + setters, to_node()) -> CacheHandle
+                 setters   (1 v) size (2 v) sets (3 v) associativity (4 e) allocation_type (5 e) cache_type (6 e) write_policy
+                           (7 v) line_size (8 v) id (9 (104 k)) next_level(&handle returned by operation k) [k must be an add_cache]
+                 allocation_type 0 Read 1 Write 2 Both;  cache_type 0 Data 1 Instruction 2 Unified;  write_policy 0 Writeback 1 Writethrough
+     every op reports the returned handle; (104 k) counts real operations from 0 (observations are not counted).
+   In the reference a handle is the offset at which the entry added by operation k starts; a setter called several times
+   leaves the value of its last call (and its flag bit set). *)
+From Coq Require Import NArith List Bool.
+From ACPI Require Import Lib.Bytes Lib.Sx Spec.Layout Spec.MadtS Spec.HmatS.
 Import ListNotations.
-Definition pptt_spec : tspec := null_spec.
+Open Scope N_scope.
+
+(* union, over every invocation (k v) of builder k, of v * scale *)
+Fixpoint or_args (k scale : N) (setters : list sx) : N :=
+  match setters with
+  | [] => 0
+  | SL [SA k'; SA v] :: r => if k' =? k then N.lor (v * scale) (or_args k scale r) else or_args k scale r
+  | _ :: r => or_args k scale r
+  end.
+
+(* the entries laid out so far: (type code, start offset), most recent first, and their number *)
+Definition placed := (list (N * N) * N)%type.
+
+(* the start of the entry added by operation k, provided it has the expected type *)
+Definition resolve (p : placed) (ty : N) (x : sx) : option N :=
+  match x with
+  | SL [SA 104; SA k] =>
+      if k <? snd p then
+        match nth_error (fst p) (N.to_nat (snd p - 1 - k)) with
+        | Some (t, off) => if t =? ty then Some off else None
+        | None => None
+        end
+      else None
+  | _ => None
+  end.
+
+Fixpoint resolve_all (p : placed) (ty : N) (l : list sx) : option (list N) :=
+  match l with
+  | [] => Some []
+  | x :: r => match resolve p ty x, resolve_all p ty r with Some h, Some hs => Some (h :: hs) | _, _ => None end
+  end.
+
+(* a parent / pub-field value: a number is taken verbatim *)
+Definition resolve_or_raw (p : placed) (ty : N) (x : sx) : option N :=
+  match x with SA v => if v <? 2 ^ 32 then Some v else None | _ => resolve p ty x end.
+
+(* processor node: fold of the builders over (flags, parent, uid, resources most recent first) *)
+Definition pstate := (N * N * N * list N)%type.
+
+Definition proc_builder (p : placed) (st : pstate) (b : sx) : option pstate :=
+  match st with
+  | (flags, parent, uid, rres) =>
+      match b with
+      | SL [SA 1] => Some (N.lor flags 1, parent, uid, rres)
+      | SL [SA 2] => Some (N.lor flags 2, parent, uid, rres)
+      | SL [SA 3] => Some (N.lor flags 4, parent, uid, rres)
+      | SL [SA 4] => Some (N.lor flags 8, parent, uid, rres)
+      | SL [SA 5] => Some (N.lor flags 16, parent, uid, rres)
+      | SL [SA 6; h] => match resolve p 1 h with Some c => Some (flags, parent, uid, c :: rres) | None => None end
+      | SL [SA 7; SA v] => if v <? 2 ^ 32 then Some (v, parent, uid, rres) else None
+      | SL [SA 8; x] => match resolve_or_raw p 0 x with Some v => Some (flags, v, uid, rres) | None => None end
+      | SL [SA 9; SA v] => if v <? 2 ^ 32 then Some (flags, parent, v, rres) else None
+      | _ => None
+      end
+  end.
+
+Fixpoint proc_builders (p : placed) (st : pstate) (bs : list sx) : option pstate :=
+  match bs with
+  | [] => Some st
+  | b :: r => match proc_builder p st b with Some st' => proc_builders p st' r | None => None end
+  end.
+
+Definition is_next_level (s : sx) : bool := match s with SL [SA 9; _] => true | _ => false end.
+Fixpoint last_next_level (p : placed) (st : list sx) (acc : N) : option N :=
+  match st with
+  | [] => Some acc
+  | SL [SA 9; h] :: r => match resolve p 1 h with Some c => last_next_level p r c | None => None end
+  | _ :: r => last_next_level p r acc
+  end.
+
+Definition cache_setter_ok (s : sx) : bool :=
+  match s with
+  | SL [SA 1; SA v] | SL [SA 2; SA v] | SL [SA 8; SA v] => v <? 2 ^ 32
+  | SL [SA 3; SA v] => v <? 2 ^ 8
+  | SL [SA 4; SA e] | SL [SA 5; SA e] => e <? 3
+  | SL [SA 6; SA e] => e <? 2
+  | SL [SA 7; SA v] => v <? 2 ^ 16
+  | SL [SA 9; _] => true
+  | _ => false
+  end.
+
+Definition bit (b : bool) (v : N) : N := if b then v else 0.
+
+Definition pptt_entry_ref (p : placed) (o : sx) : option (list N) :=
+  match o with
+  | SL [SA 1; parent; SA uid; SL bs] =>
+      (* Processor Hierarchy Node *)
+      match (match parent with SL [] => Some 0 | x => resolve_or_raw p 0 x end) with
+      | Some par0 =>
+          if uid <? 2 ^ 32 then
+            match proc_builders p (0, par0, uid, []) bs with
+            | Some (flags, par, id, rres) =>
+                let n := length rres in
+                if Nat.leb (20 + 4 * n) 255 then
+                  lay_then 20 [L 0 1 0; L 1 1 (N.of_nat (20 + 4 * n)); L 2 2 0; L 4 4 flags; L 8 4 par; L 12 4 id; L 16 4 (N.of_nat n)]
+                           (arr 4 (frev rres))
+                else None
+            | None => None
+            end
+          else None
+      | None => None
+      end
+  | SL [SA 2; SL st] =>
+      (* Cache Type Structure: a flag bit is set iff the corresponding value was supplied *)
+      if forallb cache_setter_ok st then
+        match last_next_level p st 0 with
+        | Some next =>
+            let flags := bit (called 1 st) 1 + bit (called 2 st) 2 + bit (called 3 st) 4 + bit (called 4 st) 8 + bit (called 5 st) 16
+                         + bit (called 6 st) 32 + bit (called 7 st) 64 + bit (called 8 st) 128 in
+            (* the three attribute builders OR their sub-field value into the byte: the field is the union of the values of
+               all invocations (C11), not the last one *)
+            let attrs := N.lor (N.lor (or_args 4 1 st) (or_args 5 4 st)) (or_args 6 16 st) in
+            lay 28 [L 0 1 1; L 1 1 28; L 2 2 0; L 4 4 flags; L 8 4 next; L 12 4 (arg0 1 st); L 16 4 (arg0 2 st); L 20 1 (arg0 3 st);
+                    L 21 1 attrs; L 22 2 (arg0 7 st); L 24 4 (arg0 8 st)]
+        | None => None
+        end
+      else None
+  | _ => None
+  end.
+
+(* lay the entries out one after the other from [next] *)
+Fixpoint pptt_entries_from (ops : list sx) (p : placed) (next : N) (racc : list (list N)) : option (list (list N)) :=
+  match ops with
+  | [] => Some (frev racc)
+  | o :: r =>
+      match pptt_entry_ref p o with
+      | Some e => pptt_entries_from r ((nth 0 e 0, next) :: fst p, snd p + 1) (next + N.of_nat (length e)) (e :: racc)
+      | None => None
+      end
+  end.
+
+Definition pptt_entries_ref (ops : list sx) : option (list (list N)) := pptt_entries_from ops ([], 0) 36 [].
+
+Definition pptt_image (ctor : sx) (ops : list sx) : option (list N) :=
+  match ctor with
+  | SL [o; t; r] =>
+      match sx_hdr_args o t r, pptt_entries_ref ops with
+      | Some h, Some es => Some (ref_table [80; 80; 84; 84] 1 h (concat es))
+      | _, _ => None
+      end
+  | _ => None
+  end.
+
+Definition pptt_spec : tspec := {|
+  ts_image := pptt_image;
+  ts_walk := Some (36%nat, H_u8_u8);
+  ts_entries := fun _ ops => option_map (map (fun e => (nth 0 e 0, length e))) (pptt_entries_ref ops);
+  ts_counts := fun _ => [];
+  ts_returns := fun _ => true
+|}.
